@@ -234,7 +234,7 @@ def build():
     plan.target(Contract(
         "iwork:IWork._store_blob", entry=lambda ex: {"self": mk_iwork(ex), "filename": ex.fresh("str", "filename"), "blob": fresh_bytes(ex)},
         raises={"FileFormatError": None}, safety="fork",
-        opaque={"[(a.header.identifier, a.objects[0]) for a in iwaf.chunks[0].archives]": objects_of}))
+        opaque={"[(a.header.identifier, a.objects[0]) for a in iwaf.chunks[0].archives]": objects_of}, search=lambda p_, c: {"custom": "search_container", "native_module": plan.native_module}))
 
     # _open_zipfile
     plan.target(Contract("iwork:IWork._open_zipfile", entry=lambda ex: {"self": mk_iwork(ex), "filepath": mk_path(ex)},
@@ -251,11 +251,11 @@ def build():
              "iwork:IWork._read_objects_from_zipfile": "call", "iwork:IWork._read_objects_from_package": "call",
              "iwork:IWork.document_version": "call"}
     plan.target(Contract("iwork:IWork._read_objects_from_zipfile", entry=lambda ex: {"self": mk_iwork(ex), "zipf": mk_zip(ex)},
-                         raises={"FileFormatError": None, "UnsupportedError": None}, may_raise=OUTSIDE, safety="fork", use_labels=calls))
+                         raises={"FileFormatError": None, "UnsupportedError": None}, may_raise=OUTSIDE, safety="fork", use_labels=calls, search=lambda p_, c: {"custom": "search_container", "native_module": plan.native_module}))
     plan.callee(Contract("iwork:IWork._read_objects_from_package", label="call", when=lambda a: True,
                          model=lambda ex, a, k, l: may_raise(ex, ("FileFormatError", "UnsupportedError") + IO_RAISES, "_read_objects_from_package", l)))
     plan.target(Contract("iwork:IWork._read_objects_from_package", entry=lambda ex: {"self": mk_iwork(ex), "filepath": mk_path(ex)},
-                         raises={"FileFormatError": None, "UnsupportedError": None}, may_raise=OUTSIDE, safety="fork", use_labels=calls))
+                         raises={"FileFormatError": None, "UnsupportedError": None}, may_raise=OUTSIDE, safety="fork", use_labels=calls, search=lambda p_, c: {"custom": "search_container", "native_module": plan.native_module}))
     # document_version (property)
     def dv_post(ex, env):
         return z3.BoolVal(isinstance(env["result"], (str, SStr)))
@@ -264,16 +264,16 @@ def build():
                          raises={"FileFormatError": None}, may_raise=OUTSIDE, safety="fork",
                          opaque={"[x.filename for x in self._zipf.filelist if x.filename.endswith(('Metadata/Properties.plist', 'Metadata/BuildVersionHistory.plist'))]":
                                  lambda ex, env: PList([ex.fresh("str", "m")] * 2) if ex.decide(z3.Bool(fresh_name("two_meta")), "two metadata members") else PList([ex.fresh("str", "m")]),
-                                 "sorted(metadata)[-1]": "str"}))
+                                 "sorted(metadata)[-1]": "str"}, search=lambda p_, c: {"custom": "search_container", "native_module": plan.native_module}))
     plan.callee(Contract("iwork:IWork.document_version", label="call", when=lambda a: True,
                          model=lambda ex, a, k, l: (may_raise(ex, ("FileFormatError",) + IO_RAISES, "document_version", l), ex.fresh("str", "version"))[1]))
     # open
     plan.target(Contract("iwork:IWork.open", entry=lambda ex: {"self": mk_iwork(ex), "filepath": mk_path(ex)},
-                         raises=LIB, may_raise=OUTSIDE, safety="fork", use_labels=calls))
+                         raises=LIB, may_raise=OUTSIDE, safety="fork", use_labels=calls, search=lambda p_, c: {"custom": "search_container", "native_module": plan.native_module}))
 
     plan.bounded.append(BoundedStandIn(
         "fault-injection", "c17_faults.py", ["--flips", "150", "--truncs", "60", "--bases", "2"],
-        thorough_args=["--flips", "1500", "--truncs", "300", "--bases", "12"],
+        thorough_args=["--flips", "1000", "--truncs", "300", "--bases", "8"], timeout=1800,
         bound="bundled template + 1 fixture (thorough: 11 fixtures): missing path, wrong suffix, not a zip, no .iwa members, "
               "encrypted (+ damaged member before .iwph), truncation at 64 (304) lengths, 150 (1500) seeded 1-3 bit flips in "
               "stored and deflated containers, per-member faults on 6 .iwa members and the plists (empty, 1/2/3 bytes, 00 00, cut "
